@@ -31,6 +31,18 @@ reg("C08",
     "(cross-checked with Fraction on a sample each run) and timedelta(microseconds=int) exactness.",
     "DESIGN.md section 4, C08")
 
+reg("C01",
+    "Hypothesis-generated tempo maps and whole charts checked against an exact-rational tempo-map oracle",
+    "Exploration by generated-input search: thousands of constructed tempo maps (resolution 1..10^6, "
+    "0.001..10^6 BPM, up to 24/120 segments, gaps of 1 tick to 10^6 ticks, all times < 10^6 s) and "
+    "whole charts carrying every event kind at ticks on/next to/inside/far past the tempo changes are "
+    "parsed through Chart.from_file; every reported timestamp (all event kinds, note sustain ends, both "
+    "public queries) is compared with an exact Fraction model under the stated tolerance. Sampling, "
+    "not proof: a rounding error confined to maps the generator does not reach would be missed.",
+    "Exact model is the harness' own Fraction arithmetic; tolerance 0.5 us + 1 ns float slack per "
+    "segment traversed (derivation in DESIGN.md section 3).",
+    "DESIGN.md section 4, C01")
+
 
 def build():
     checks = []
